@@ -453,7 +453,8 @@ def gen_buffer_case(seed, depth=10):
         # two observations parked one after the other, the second fitting exactly into what the first leaves free
         r1, d1, r2, d2 = rng2.randint(1, hot_rate), rng2.randint(1, 6), rng2.randint(1, hot_rate), rng2.randint(1, 6)
         cold_cap = r1 * d1 + r2 * d2
-        ops = [['ingest', r1, d1], ['settle'], ['h2c'], ['settle'], ['ingest', r2, d2], ['settle'], ['h2c'], ['settle']] + ops
+        # (both are ingested before either is moved: admission of the second one also asks the cold tier for room)
+        ops = [['ingest', r1, d1], ['settle'], ['ingest', r2, d2], ['settle'], ['h2c'], ['settle'], ['h2c'], ['settle']] + ops
     return {'kind': 'buffer_ops', 'cfg': {'timestep': rng.choice(['seconds'] * 6 + ['minutes', 3, 5, 'Minutes']),
                                           'machines': {'m0': {'flops': 1, 'compute_bandwidth': 1}},
                                           'hot': {'capacity': hot_cap, 'max_ingest_rate': hot_rate},
